@@ -45,15 +45,39 @@ func main() {
 			fmt.Fprintln(os.Stderr, err)
 			os.Exit(2)
 		}
+		if len(os.Args) > 3 && os.Args[3] == "fp" {
+			b, _ := json.Marshal(prog.FingerprintsOf())
+			os.Stdout.Write(b)
+			return
+		}
 		b, _ := json.MarshalIndent(prog.AnchorsOf(), "", " ")
 		os.Stdout.Write(b)
+	case "norm":
+		// debug: hcsa norm <repo> <outdir>: what the helper-inlining pass does to the tree
+		prog, err := core.LoadNormalized(core.Config{Dir: os.Args[2]})
+		if err != nil {
+			fmt.Println(err)
+			os.Exit(2)
+		}
+		for _, n := range prog.NormNotes {
+			fmt.Println(n)
+		}
+		for _, n := range prog.RenameNotes() {
+			fmt.Println(n)
+		}
+		if len(os.Args) > 3 {
+			os.MkdirAll(os.Args[3], 0755)
+			for k, v := range prog.Cfg.Overlay {
+				os.WriteFile(filepath.Join(os.Args[3], strings.ReplaceAll(strings.TrimPrefix(k, os.Args[2]+"/"), "/", "__")), v, 0644)
+			}
+		}
 	case "ssa":
 		// debug: hcsa ssa <pkg-rel> <func> [repo]
 		repo := "/repo"
 		if len(os.Args) > 4 {
 			repo = os.Args[4]
 		}
-		prog, err := core.Load(core.Config{Dir: repo})
+		prog, err := core.LoadNormalized(core.Config{Dir: repo})
 		if err != nil {
 			fmt.Println(err)
 			os.Exit(2)
@@ -125,7 +149,7 @@ func check(args []string) int {
 		results[p.ID] = &core.Result{Prop: p, Counters: map[string]int{}, Extra: map[string]interface{}{}}
 	}
 	for _, cfg := range cfgs {
-		prog, err := core.Load(cfg)
+		prog, err := core.LoadNormalized(cfg)
 		if err != nil {
 			for _, p := range props {
 				fmt.Printf("UNDECIDED property=%s reason=load failed (%s): %v\n", p.ID, cfg, err)
